@@ -29,7 +29,7 @@ func init() {
 		Batches: func(tier string) int { return map[string]int{"quick": 16, "thorough": 48}[tier] },
 		Run:     run,
 		Rule: "cases: unique-leaf documents written by the harness with members in a random order (that order is the document order), 1-3 target paths built from child, index, wildcard, union, slice, descent and trailing filter fragments; " +
-			"the callbacks of oj.Match, oj.MatchString, oj.MatchLoad (whole, 1-byte, fixed 2/3/7, every single split point for documents up to 200 bytes) and sen.Match are compared as a sequence of (normalized path, value) with the outermost J locations in document order. " +
+			"the callbacks of oj.Match, oj.MatchString, oj.MatchLoad (whole, 1-byte, fixed 2/3/7, every single split point for documents up to 200 bytes) and sen.Match, sen.MatchString, sen.MatchLoad are compared as a sequence of (normalized path, value) with the outermost J locations in document order. " +
 			"non-trivial: the targets select at least one location; distinct by digest of (document, targets)",
 		Assumptions: []string{
 			"when one selected location lies inside another only the outermost one is delivered (the statement's 'outermost location')",
@@ -44,7 +44,7 @@ func init() {
 		},
 		Floors: func(tier string, cover map[string]int64, evals int64) []string {
 			var out []string
-			for _, k := range []string{"route:oj.Match", "route:oj.MatchString", "route:oj.MatchLoad", "route:sen.Match", "plan:split", "plan:fixed1", "targets:1", "targets:2", "targets:3", "kind:descent", "kind:union", "kind:wild", "nested-selection"} {
+			for _, k := range []string{"route:oj.Match", "route:oj.MatchString", "route:oj.MatchLoad", "route:sen.Match", "route:sen.MatchString", "route:sen.MatchLoad", "plan:split", "plan:fixed1", "targets:1", "targets:2", "targets:3", "kind:descent", "kind:union", "kind:wild", "nested-selection"} {
 				if cover[k] == 0 {
 					out = append(out, "coverage class never reached: "+k)
 				}
@@ -364,6 +364,7 @@ func run(c *mon.Ctx) {
 		run1("oj.Match", func(cb func(jp.Expr, any)) error { return oj.Match([]byte(doc), cb, targets...) }, nil)
 		run1("oj.MatchString", func(cb func(jp.Expr, any)) error { return oj.MatchString(doc, cb, targets...) }, nil)
 		run1("sen.Match", func(cb func(jp.Expr, any)) error { return sen.Match([]byte(doc), cb, targets...) }, nil)
+		run1("sen.MatchString", func(cb func(jp.Expr, any)) error { return sen.MatchString(doc, cb, targets...) }, nil)
 		plans := []jsongen.Plan{jsongen.Whole, jsongen.Fixed(1), jsongen.Fixed(2), jsongen.Fixed(3), jsongen.Fixed(7)}
 		if len(doc) <= 200 && (i%4 == 0 || c.Thorough()) {
 			for at := 1; at < len(doc); at++ {
@@ -382,6 +383,9 @@ func run(c *mon.Ctx) {
 			}
 			c.Cover("plan:" + strings.TrimSuffix(pc, "@"))
 			run1("oj.MatchLoad", func(cb func(jp.Expr, any)) error { return oj.MatchLoad(pl.Reader([]byte(doc)), cb, targets...) }, map[string]any{"plan": pl.Name})
+			if !strings.HasPrefix(pl.Name, "split") || i%8 == 0 {
+				run1("sen.MatchLoad", func(cb func(jp.Expr, any)) error { return sen.MatchLoad(pl.Reader([]byte(doc)), cb, targets...) }, map[string]any{"plan": pl.Name})
+			}
 		}
 	}
 }
